@@ -177,13 +177,13 @@ CHECKS = {
     "C10": {
         "groups": [{
             "pkg": BS, "funcs": ["VerifC10Mixed"],
-            "covers": {"VerifC10Mixed": ["non-writer", "foreign-db", "wrong-hash", "bad-ancestor", "bad-signature", "re-announced"]},
+            "covers": {"VerifC10Mixed": ["non-writer", "foreign-db", "wrong-hash", "bad-ancestor", "bad-signature", "re-announced", "claims-valid-address", "rejected-alone-first"]},
         }],
         "assumptions": [
-            "replica with an explicit write list; a two-head announcement mixing a valid head with a rejected one (non-writer author / other database / wrong claimed address / writer's entry on top of a non-writer's ancestor / writer's id with a signature that does not verify) at either position, through the real Sync -> replicator -> fetcher -> main loop -> replicationLoadComplete -> Join",
+            "replica with an explicit write list; a two-head announcement mixing a valid head with a rejected one (non-writer author / other database / wrong claimed address / writer's entry on top of a non-writer's ancestor / writer's id with a signature that does not verify) at either position, or the rejected head alone BEFORE the valid one is announced; the rejected head keeps its own address or CLAIMS the valid entry's address (the claimed address of an announced head is chosen by the sender); through the real Sync -> replicator -> fetcher -> main loop -> replicationLoadComplete -> Join",
             "then an honest re-announcement of the valid head and a newer valid head; quiescence decided from the scheduler state (all threads blocked), not from a timeout",
         ],
-        "outside": ["more than two heads per announcement", "fetch-completion orders other than run-to-block FIFO", "the forged-author class is C03's (known finding)"],
+        "outside": ["more than two heads per announcement", "fetch-completion orders other than run-to-block FIFO", "the forged-author class is decided under C03"],
     },
     "C11": {
         "groups": [{
@@ -195,10 +195,17 @@ CHECKS = {
             "params": {"quick": {"N": 2}, "thorough": {"N": 3}},
             "max_paths": {"quick": 60000, "thorough": 400000},
             "covers": {"VerifC11CancelAnywhere": ["aborted", "retried"]},
+        }, {
+            "pkg": BS, "funcs": ["VerifC11Saturated"],
+            "params": {"quick": {"N": 3, "P": 1}, "thorough": {"N": 4, "P": 2}},
+            "max_paths": {"quick": 60000, "thorough": 600000},
+            "timeout": {"quick": "10m", "thorough": "60m"},
+            "covers": {"VerifC11Saturated": ["aborted-while-saturated", "newer-head", "retried"]},
         }],
         "assumptions": [
             "remote log = chain of N entries or two branches; replication concurrency 1 or 2; request 1 is cancelled before it starts, at the k-th block fetch (k=1..N, i.e. while another worker waits for a slot or in the middle of a fetch) or after the last, and/or one chosen fetch fails; request 2 for the same heads runs with a live context and all blocks available",
             "quiescence decided from the scheduler state",
+            "saturated replicator (VerifC11Saturated): ONE fetch slot, two heads (branches of N-1 and 1 entries) announced in either order; the request is cancelled at its first or second block fetch while other workers wait for the slot, and which waiting worker gets the slot / which queued hash it takes is explored under every schedule with at most P preemptions; the later request names the same heads or a NEWER head written on top of both branches; oracle: everything reachable is in the log and the replicator queue is empty",
             "cancel-anywhere harness: the first request's context is cancelled at ANY visible operation of ANY thread (each lock/unlock, channel operation, goroutine start, block/cache effect is a point where the path may fire the cancellation): one path per point",
         ],
         "outside": ["timeouts of the real bitswap", "cancellation between two visible operations of the same thread", "N beyond the bound"],
@@ -213,7 +220,7 @@ CHECKS = {
         }, {
             "pkg": ODB, "funcs": ["VerifSysTwoDBs"],
             "params": {"quick": {"N": 2}, "thorough": {"N": 3}},
-            "covers": {"VerifSysTwoDBs": ["healed", "both-write"]},
+            "covers": {"VerifSysTwoDBs": ["healed", "both-write", "shared-options"]},
         }, {
             "pkg": ODB, "funcs": ["VerifSysHeal"],
             "params": {"quick": {"STEPS": 2, "PEERS": 2, "FAULTS": 2}, "thorough": {"STEPS": 3, "PEERS": 2, "FAULTS": 3}},
@@ -226,7 +233,7 @@ CHECKS = {
             "a sequence of STEPS actions on database A (local write with symbolic payload; replication of a head written by a remote process; load; A being handed a valid entry that was written for database B), run to quiescence after each",
             "oracle: nothing published on B's topic or sent on the direct channel; B's log, progress and maximum unchanged; every store event observed on the bus carries A's address",
             "then a write to B followed by a write to A under every thread schedule with at most P preemptions (switch or stall) at visible operations; every message published on a topic must name that topic's database and carry only its heads",
-            "instance level (VerifSysTwoDBs, VerifSysHeal): two real orbitDB instances hold the same two databases (event log + key-value); both are written behind a partition, the head exchanges of both travel back to back over one direct channel through the real monitorDirectChannel / handleEventExchangeHeads routing and replicate concurrently on the shared bus; each database ends with exactly its own entries, its own replication status and events naming it; every wire message names the database whose heads it carries; an idle database stays untouched under a fault plan on its sibling",
+            "instance level (VerifSysTwoDBs, VerifSysHeal): two real orbitDB instances hold the same two databases (event log + key-value; the second instance opens both with fresh option values or with ONE reused *CreateDBOptions value); both are written behind a partition, the head exchanges of both travel back to back over one direct channel through the real monitorDirectChannel / handleEventExchangeHeads routing and replicate concurrently on the shared bus; each database ends with exactly its own entries, its own replication status and events naming it; every wire message names the database whose heads it carries; an idle database stays untouched under a fault plan on its sibling",
         ],
         "outside": ["more than two databases / different store types (the listeners are in BaseStore, common to all types)", "schedules other than run-to-block FIFO in the instance-level harnesses"],
     },
@@ -497,11 +504,18 @@ CHECKS = {
             "max_paths": {"quick": 60000, "thorough": 800000},
             "timeout": {"quick": "10m", "thorough": "90m"},
             "covers": {"VerifC01Log": ["converged"], "VerifC08Concurrent": ["raced"]},
+        }, {
+            "pkg": EL, "funcs": ["VerifC08Writers"],
+            "params": {"quick": {"W": 3, "STEPS": 3}, "thorough": {"W": 3, "STEPS": 5}},
+            "max_paths": {"quick": 60000, "thorough": 800000},
+            "timeout": {"quick": "10m", "thorough": "90m"},
+            "covers": {"VerifC08Writers": ["exchanged", "converged"]},
         }],
         "assumptions": [
             "listing of N entries with distinct hashes; one bound kind (none/GT/GTE/LT/LTE) at every position; Amount unset or ANY 64-bit integer (symbolic)",
             "store built by the real NewOrbitDBEventLogStore/InitBaseStore over stubs; index fed through the real eventIndex.UpdateIndex",
             "order stability: two writers, STEPS steps of local Add / real head exchange in any order; after every step the previous listing is a subsequence of the new one, own entries are in write order and a new entry follows everything its writer had seen; Get by address returns the entry",
+            "three writers (VerifC08Writers): STEPS steps, each a local Add on one of W=3 replicas or a real head exchange between any ordered pair; concurrent entries of three writers share Lamport times, so the writer-key tie break decides the order in several places; same per-step oracle on every replica, and identical listings after two all-to-all exchange rounds (C01)",
             "a local Add racing with the merge of a remote batch on the same replica: every schedule with at most P preemptions (switch to another runnable thread, or set the running thread aside until nothing else can run) at visible operations",
         ],
         "outside": ["bound hashes not in the log (excluded by the property)", "two bounds at once", "N beyond the bound"],
